@@ -2,7 +2,7 @@
     Statements only; every proof is [exact <lemma of proof/C15_Proof.v>]. *)
 From stdpp Require Import gmap strings sets pretty sorting.
 From SK Require Import model.C15_Model proof.C15_Proof.
-From SK Require Import model.C15_Ext proof.C15_Ext proof.C15_ExtQ proof.C15_ExtP proof.C15_ExtEx.
+From SK Require Import model.C15_Ext proof.C15_Ext proof.C15_ExtQ proof.C15_ExtP proof.C15_ExtS proof.C15_ExtM proof.C15_ExtEx.
 Local Open Scope string_scope.
 
 (** ** 1. The store invariant *)
@@ -269,6 +269,22 @@ Theorem C15_added_objects_by_value :
 Proof. split; [exact add_pool_stores|exact add_from_stores]. Qed.
 Print Assumptions C15_added_objects_by_value.
 
+(** merge of a duck-typed other (plain sides, id possibly missing, raw rule): stops
+    with ValueError at the first edge whose sides normalise to nothing (the edges
+    before it stay merged) and otherwise succeeds — no other error; own reactions
+    are kept; every raw edge is stored, normalised, under an id that was free;
+    nothing else appears *)
+Theorem C15_merge_raw_spec : forall (prefix : bool) (es : list raw_edge) (s s' : net) (er : option err),
+  let raw := fun re : raw_edge => Rxn (norm_rule re.1.1.2) (normalize_items re.1.2) (normalize_items re.2) in
+  merge_raw s es prefix = (s', er) ->
+  (er = None \/ er = Some ValueError) /\
+  (er = None <-> Forall (fun re => rxn_empty (raw re) = false) es) /\
+  edges s ⊆ edges s' /\
+  (er = None -> forall re, re ∈ es -> exists e', edges s' !! e' = Some (raw re) /\ edges s !! e' = None) /\
+  (forall e' rx, edges s' !! e' = Some rx -> edges s !! e' = Some rx \/ exists re, re ∈ es /\ rx = raw re).
+Proof. exact merge_raw_spec. Qed.
+Print Assumptions C15_merge_raw_spec.
+
 (** *** molecule labels: stored exactly for present species, never for reaction ids *)
 
 Theorem C15_set_mol_map_spec : forall (s : net) (mp : list (string * string)) (strict clear : bool)
@@ -435,12 +451,19 @@ Proof. exact paths_sound. Qed.
 Print Assumptions C15_paths_sound.
 
 (** paths (completeness): without max_paths every such chain is reported.
-    (The order of the answers and the max_paths cut: oracle only.) *)
+    (The order among paths of equal length and the max_paths cut: oracle only.) *)
 Theorem C15_paths_complete : forall (s : net) (a b : string) (h : Z) (ps : list (list string)) (rp : list string),
   Inv s -> paths s a b h None = inr ps ->
   rpath s a rp -> head rp = Some b -> (Z.of_nat (length rp) <= h + 1)%Z -> reverse rp ∈ ps.
 Proof. exact paths_complete. Qed.
 Print Assumptions C15_paths_complete.
+
+(** breadth-first order: the answers come shortest first *)
+Theorem C15_paths_shortest_first : forall (s : net) (a b : string) (h : Z) (ps : list (list string)),
+  Inv s -> paths s a b h None = inr ps ->
+  StronglySorted (fun p q => (length p <= length q)%nat) ps.
+Proof. exact paths_sorted. Qed.
+Print Assumptions C15_paths_shortest_first.
 
 (** what [rpath] says: built from [src] by steps to a neighbour not yet visited *)
 Theorem C15_rpath_meaning : forall (s : net) (src : string) (rp : list string),
